@@ -36,7 +36,7 @@ def _el(tag, attrib=None, children=()):
     return FakeElement(SVGNS + tag, attrib, children)
 
 
-@obligation(("C02", "C05", "C08"), "use.instance", functions=["svg.SVG._resolve_use", "svg._try_remove_group", "svg._inherit_attrib", "svg._inherit_matrix_multiply"])
+@obligation(("C02", "C03", "C05", "C08"), "use.instance", functions=["svg.SVG._resolve_use", "svg._try_remove_group", "svg._inherit_attrib", "svg._inherit_matrix_multiply"])
 def use_instance(H):
     """Every <use> is replaced, in place, by a copy of its target: a point of the target is mapped by the target's own
     transform, then translate(x, y), then the use's transform; the copy keeps its own paint, otherwise takes the use's;
@@ -58,6 +58,7 @@ def use_instance(H):
     tgt_tr = H.case("target_has_transform", (True, False))
     tgt_fill = H.case("target_has_fill", (True, False))
     use_op = H.case("use_has_opacity", (True, False))
+    use_clip = H.case("use_has_clip", (True, False))
     xs, xn = numstr(H, "x")
     ys, yn = numstr(H, "y")
     uos, uon = numstr(H, "uo")
@@ -77,47 +78,82 @@ def use_instance(H):
         uattr["transform"] = utok
     if use_op:
         uattr["opacity"] = uos
+    if use_clip:
+        uattr["clip-path"] = "url(#c)"
     use = _el("use", uattr)
     before, after = _el("path", {"d": "M0,0"}), _el("path", {"d": "M1,1"})
     holder = _el("g", {"id": "holder"}, [before, use, after])
-    root = _el("svg", {}, [_el("defs", {}, [target]), holder])
+    root = _el("svg", {}, [_el("defs", {}, [target, _el("clipPath", {"id": "c"}, [_el("rect", {"width": "2", "height": "2"})])]), holder])
     svg = SVG(root)
     _, e = H.catch(SVG._resolve_use, svg, root)
     H.prove(e is None, "use.no_exception", detail=repr(e))
     if e is not None:
         return
     kids = list(holder)
-    ok = len(kids) == 3 and kids[0] is before and kids[2] is after and local(kids[1]) == "rect" and kids[1] is not target
+    # the instance: the copy of the target, directly in place of the use or inside the group that stands for the use
+    rects = [k for k in ([kids[1]] + list(kids[1].iterdescendants()) if len(kids) == 3 else []) if local(k) == "rect"]
+    ok = len(kids) == 3 and kids[0] is before and kids[2] is after and len(rects) == 1 and rects[0] is not target and local(kids[1]) in ("rect", "g")
     H.prove(ok, "use.instance_takes_the_place_of_the_use_element")
     if not ok:
         return
-    inst = kids[1]
-    H.prove("id" not in inst.attrib and target.attrib.get("id") == "t" and list(list(root)[0])[0] is target, "use.copy_has_no_id_original_untouched")
-    H.prove(XLINK not in inst.attrib and all(k not in inst.attrib for k in ("x", "y")) and inst.attrib.get("width") == "4", "use.placement_attributes_not_copied_onto_the_instance")
-    H.prove(inst.attrib.get("fill") == ("blue" if tgt_fill else "red"), "use.own_paint_wins_otherwise_the_use_paint")
-    want_op = ton * (uon if use_op else 1)
-    H.prove(H.close(num_of(H, inst.attrib["opacity"]), want_op), "use.opacity_multiplied_once")
-    p = (H.real("px"), H.real("py"))
-    q = map_pt(tm, p) if tgt_tr else p
-    if has_xy:
-        q = (q[0] + xn, q[1] + yn)
-    if use_tr:
-        q = map_pt(um, q)
-    tr = inst.attrib.get("transform")
-    if tr is None:
-        # no transform left on the instance: only right if the whole placement is the identity matrix
-        # (stated per matrix entry - six small queries instead of one point-mapping query)
-        from .spec import mat_mul, translate_m
+    inst = rects[0]
+    chain = [inst]  # the instance and its new ancestors below the holder, innermost first
+    while chain[-1] is not kids[1]:
+        chain.append(chain[-1].getparent())
+    H.prove(all(local(c) == "g" and len(c) == 1 for c in chain[1:]), "use.instance_wrapped_only_by_groups_made_for_it")
+    H.prove(all("id" not in c.attrib for c in chain) and target.attrib.get("id") == "t" and list(list(root)[0])[0] is target, "use.copy_has_no_id_original_untouched")
+    H.prove(all(XLINK not in c.attrib and all(k not in c.attrib for k in ("x", "y")) for c in chain) and inst.attrib.get("width") == "4", "use.placement_attributes_not_copied_onto_the_instance")
 
-        total = tuple(tm) if tgt_tr else (1, 0, 0, 1, 0, 0)
-        if has_xy:
-            total = mat_mul(translate_m(xn, yn), total)
-        if use_tr:
-            total = mat_mul(tuple(um), total)
-        for i, (a, b) in enumerate(zip(total, (1, 0, 0, 1, 0, 0))):
-            H.prove(H.close(a, b), "use.no_transform_only_if_placement_is_identity")
+    def cascade(name):
+        """own value of the innermost element that sets it"""
+        for c in chain:
+            if name in c.attrib:
+                return c.attrib[name]
+        return None
+
+    H.prove(cascade("fill") == ("blue" if tgt_fill else "red"), "use.own_paint_wins_otherwise_the_use_paint")
+    want_op = ton * (uon if use_op else 1)
+    got_op = 1
+    for c in chain:
+        if "opacity" in c.attrib:
+            got_op = got_op * num_of(H, c.attrib["opacity"])
+    H.prove(H.close(got_op, want_op), "use.opacity_multiplied_once")
+    p = (H.real("px"), H.real("py"))
+    from .spec import mat_mul, translate_m
+
+    def total_from(i):
+        """matrix from the coordinate system of chain[i]'s content to the holder's: transforms of chain[i:], innermost first"""
+        m = (1, 0, 0, 1, 0, 0)
+        for c in chain[i:]:
+            tr = c.attrib.get("transform")
+            if tr is not None:
+                if not isinstance(tr, _AffTok):
+                    return None
+                m = mat_mul(tuple(tr.m), m)
+        return m
+
+    placement = (1, 0, 0, 1, 0, 0)
+    if has_xy:
+        placement = mat_mul(translate_m(xn, yn), placement)
+    if use_tr:
+        placement = mat_mul(tuple(um), placement)
+    want = mat_mul(placement, tuple(tm)) if tgt_tr else placement
+    got = total_from(0)
+    H.prove(got is not None, "use.transforms_written_as_matrices")
+    if got is not None:
+        for a_, b_ in zip(got, want):
+            H.prove(H.close(a_, b_), "use.point_goes_through_target_then_translate_then_use_transform")
+    # the clip of the use lives in the use's coordinate system: placement only, NOT the target's own transform
+    carriers = [i for i, c in enumerate(chain) if "clip-path" in c.attrib]
+    if use_clip:
+        H.prove(len(carriers) == 1 and chain[carriers[0]].attrib["clip-path"] == "url(#c)", "use.clip_path_kept_exactly_once", detail=str([dict(c.attrib) for c in chain]))
+        if len(carriers) == 1:
+            got_clip = total_from(carriers[0])
+            if got_clip is not None:
+                for a_, b_ in zip(got_clip, placement):
+                    H.prove(H.close(a_, b_), "use.clip_stays_in_the_coordinate_system_of_the_use")
     else:
-        H.prove(isinstance(tr, _AffTok) and H.close(map_pt(tr.m, p), tuple(q)), "use.point_goes_through_target_then_translate_then_use_transform")
+        H.prove(not carriers, "use.no_clip_invented")
 
 
 @obligation(("C03",), "clip.region", functions=["svg.SVG._resolve_clip_path", "svg._element_transform", "svg.from_element"])
